@@ -195,7 +195,7 @@ fn disconnect_hook(w: &World, j: usize, id: PeerId) {
     // were it cancelled after them, the window elapses and K sorts after D.
     if rec.parked.load(SeqCst) {
         let t0 = Instant::now();
-        while !rec.seen.load(SeqCst) && t0.elapsed() < Duration::from_millis(400) { std::thread::sleep(Duration::from_millis(1)); }
+        while !rec.seen.load(SeqCst) && t0.elapsed() < Duration::from_millis(1500) { std::thread::sleep(Duration::from_millis(1)); }
     }
     let present = w.registry.get(id).is_some();
     let al = w.resolving(id.0, &rec);
